@@ -332,7 +332,7 @@ def run_case(case, rec):
         judge_pair(rec, ws, pair, rx, tx, "link:" + direction)
         n_copy = n_reopen = 0
         for step in range(case["steps"]):
-            kinds = ["edit"] * 4 + ["reopen", "copy", "copy"] + (["relink"] if pair[3] in ("em", "tipper") else []) + (["refused-relink"] if pair[3] == "tipper" and np.asarray(tx.vertices).shape[0] > 2 else []) if menu else ["reopen", "copy", "copy", "touch"]
+            kinds = ["edit"] * 4 + ["reopen", "copy", "copy"] + (["relink"] if pair[3] in ("em", "tipper") else []) + (["refused-relink"] if pair[3] == "tipper" and np.asarray(tx.vertices).shape[0] > 2 else []) if menu else ["reopen", "copy", "copy", "touch"] + (["third-electrode"] * 2 if pair[3] == "dc" else [])
             k = rng.choice(kinds)
             if k == "edit":
                 name, make = rng.choice(menu)
@@ -346,8 +346,19 @@ def run_case(case, rec):
                     val = dat.uid
                 steps.append(("edit", name, side_name))
                 rec.see("steps:edit")
+                whole = name == "unit" and pair[3] != "dc" and rng.random() < 0.5
                 try:
-                    setattr(side, name, val)
+                    if whole:
+                        # the same edit made by assigning the whole metadata dictionary (what a script that read it from
+                        # a json document does)
+                        import copy
+
+                        md = copy.deepcopy(side.metadata)
+                        md["EM Dataset"]["Unit"] = val
+                        side.metadata = md
+                        rec.see("edits-by-assigning-the-metadata")
+                    else:
+                        setattr(side, name, val)
                 except Exception as exc:  # noqa: BLE001
                     if not exc_origin(exc)[0]:
                         raise
@@ -397,6 +408,39 @@ def run_case(case, rec):
                     link(pair, newp, tx, "from-partner", extra)
                     rx = newp
                 judge_pair(rec, ws, pair, rx, tx, "relink-through-" + side_name)
+            elif k == "third-electrode":
+                # one side is linked to a third set of electrodes, then the original link is made again from one side:
+                # both records must name each other again (the last link made wins on both entities)
+                from geoh5py import objects
+
+                side_name = rng.choice(["rx", "tx"])
+                back_from = rng.choice(["from-receivers", "from-partner"])
+                steps.append(("third-electrode", side_name, back_from))
+                rec.see("steps:third-electrode")
+                if side_name == "tx":  # the current electrodes are given other potential electrodes
+                    third = getattr(objects, pair[1]).create(ws, vertices=np.asarray(rx.vertices) + 2.0, cells=np.asarray(rx.cells), name=f"rx-third{step}", parent=home)
+                    tx.potential_electrodes = third
+                    third.ab_cell_id = np.asarray(rx.ab_cell_id.values).copy()
+                else:
+                    third = getattr(objects, pair[2]).create(ws, vertices=np.asarray(tx.vertices) + 2.0, cells=np.asarray(tx.cells), name=f"tx-third{step}", parent=home)
+                    third.add_default_ab_cell_id()
+                    rx.current_electrodes = third
+                if rng.random() < 0.35:
+                    # the new link stays: the third set of electrodes is the partner from now on
+                    if side_name == "tx":
+                        rx = third
+                    else:
+                        tx = third
+                    del third
+                    rec.see("links-moved-to-a-third-electrode")
+                    judge_pair(rec, ws, pair, rx, tx, "link-moved-through-" + side_name)
+                    continue
+                if back_from == "from-receivers":
+                    rx.current_electrodes = tx
+                else:
+                    tx.potential_electrodes = rx
+                del third
+                judge_pair(rec, ws, pair, rx, tx, "link-again-" + back_from + "-after-third-through-" + side_name)
             elif k == "touch":
                 steps.append(("touch", "", ""))
                 rx.name = f"rx{step}"
